@@ -87,6 +87,9 @@ func judgeUsable(c *Ctx, k usableCase) {
 		if d < 0 {
 			d = 0
 		}
+		if d > 64 {
+			d = 64 // a code of the claimed length cannot be built for absurd lengths; any string serves
+		}
 		sub = strings.Repeat("0", d)
 	}
 	ok, verr2, vpan := callValidateOCRA("GEZDGNBVGY3TQOJQGEZDGNBVGY3TQOJQ", sub, cfg, toOCRAInput(in))
@@ -243,6 +246,21 @@ func admissionSuites() (out []ref.Suite) {
 				x := s
 				x.Challenge, x.PasswordHash = f, p
 				out = append(out, x)
+				// the same class with the metadata of the fields it does NOT select filled in (a format, a password
+				// hash, a time step): fields a suite does not select stay unconstrained whatever that metadata says
+				y := x
+				if !y.Q {
+					y.Challenge = []int{ref.QN08, ref.QA10, ref.QH08}[sub%3]
+				}
+				if !y.P {
+					y.PasswordHash = []int{ref.PSHA1, ref.PSHA256, ref.PSHA512}[sub%3]
+				}
+				if !y.T {
+					y.TimeStep = []int{1, 60, 3600}[sub%3]
+				}
+				if y != x {
+					out = append(out, y)
+				}
 			}
 		}
 	}
@@ -327,6 +345,23 @@ func init() {
 							}
 						}
 					}
+				}
+			}
+			// numbers far outside the grid that are congruent to an in-grid value modulo 2^8, 2^16 or 2^32 (what a
+			// narrowing conversion in a range check would turn into a usable-looking value): all unusable
+			n1 := len(us)
+			for i := 0; i < n1; i += 13 {
+				for _, w := range []int{1 << 8, 1 << 16, 1 << 32, -1 << 8} {
+					x := us[i]
+					switch (i / 13) % 3 { // (the hash is a uint8 in the library's configuration: nothing to narrow there)
+					case 0:
+						x.Suite.Digits += w
+					case 1:
+						x.Suite.Digits -= w
+					default:
+						x.Suite.Digits += 2 * w
+					}
+					us = append(us, x)
 				}
 			}
 			// the suite text is arbitrary: repeat a slice of the grid with advertised names as Raw (a configuration
